@@ -408,7 +408,7 @@ def run_kani(harnesses, jobs=None, timeout_s=None):
         cmd = base_cmd + list(h.get('args', [])) + ['--harness', h['name'], '--exact']
         t0 = time.time()
         outp, rc = run_one(cmd, h)
-        parsed = parse_kani(outp, [h['name']])
+        parsed = parse_kani_old(outp, h['name']) if 'old' in h.get('args', []) else parse_kani(outp, [h['name']])
         r = parsed.get(h['name'].split('::')[-1], {'status': 'timeout' if rc == -9 else 'no_result', 'checks': 0, 'failed_checks': [], 'raw_tail': outp[-3000:]})
         if r['status'] == 'failed':
             # second run, only for failing harnesses: ask Kani for the concrete values of the failed check
@@ -432,6 +432,38 @@ def run_kani(harnesses, jobs=None, timeout_s=None):
     ents = sorted(glob.glob(os.path.join(CACHE, 'k', '*')), key=os.path.getmtime)
     for e in ents[:-600]: shutil.rmtree(e, ignore_errors=True)
     return results
+
+
+def parse_kani_old(text, name):
+    """`--output-format old`: CBMC's own result lines, without the per-check traces of the regular format (for harnesses over the 8 KiB
+    `Ipv6Extensions` the traces cost 10 GB and minutes in kani-driver). Kani's post-processing is done here: reachability checks and cover
+    properties are not failures (a cover `FAILURE` = satisfiable); every other `FAILURE` is a failed check."""
+    short = name.split('::')[-1]
+    done = re.search(r'(?m)^\*\* (\d+) of (\d+) failed', text)
+    failed = []; checks = 0; cov_sat = cov_tot = 0
+    cur_file = cur_fn = ''
+    for line in text.split('\n'):
+        hm = re.match(r'^(\S+) function (.+)$', line)
+        if hm: cur_file, cur_fn = hm.group(1), hm.group(2); continue
+        m = re.match(r'^\[(.+?)\] line (\d+) (.*): (SUCCESS|FAILURE|UNKNOWN|ERROR)$', line)
+        if not m: continue
+        pid, ln, desc, st = m.group(1), int(m.group(2)), m.group(3), m.group(4)
+        if '.reachability_check.' in pid: continue
+        desc = re.sub(r'^\[KANI_CHECK_ID_\S+\]\s*', '', desc)
+        if re.search(r'\.cover\.\d+$', pid):
+            cov_tot += 1; cov_sat += 1 if st == 'FAILURE' else 0; continue
+        checks += 1
+        if st != 'SUCCESS':
+            failed.append({'desc': desc.strip(), 'file': cur_file, 'line': ln, 'in': cur_fn})
+    if not done:
+        st = 'no_result'
+    else:
+        st = 'failed' if failed else 'success'
+    tm = re.search(r'Runtime decision procedure: ([\d.]+)s', text)
+    unwind_fail = any('unwinding assertion' in f['desc'] for f in failed)
+    return {short: {'status': st, 'checks': checks, 'n_failed': len(failed), 'failed_checks': failed, 'time_s': float(tm.group(1)) if tm else None,
+                    'covers': {'satisfied': cov_sat, 'total': cov_tot}, 'playback': None, 'cover_playbacks': [], 'unwind_failure': unwind_fail,
+                    'raw_tail': text[-2500:] if st != 'success' else ''}}
 
 
 def parse_kani(text, names):
